@@ -157,7 +157,7 @@ def gen_struct(idx):
     name = "R%d" % idx
     nf = rng.randint(1, 5)
     rule = rng.choice([None, None, None] + RULES)
-    container_default = rng.random() < 0.25
+    container_default = rng.random() < 0.4
     allow_unknown = rng.random() < 0.2
     container_post = rng.choice([None, None, None, None, ("map", "fns::id"), ("and_then", "fns::ok")])
     fields = []
@@ -183,7 +183,7 @@ def gen_struct(idx):
             f["flatten"] = True
             has_flatten = True
             opts.append("flatten")
-        elif rng.random() < 0.15 and ty.rust in ("u8", "String", "i64", "bool", "char"):
+        elif rng.random() < 0.4 and ty.rust in ("u8", "String", "i64", "bool", "char"):
             f["multiple"] = True
             f["elem"] = ty
             ty = T("Vec<%s>" % ty.rust, [], [], depth=ty.depth)
@@ -295,7 +295,9 @@ def emit_struct(r, out):
         out.append("    fn default() -> Self {")
         out.append("        %s {" % r["name"])
         for f in r["fields"]:
-            special = {"u8": "11", "i64": "-11", "String": '"container".to_string()', "bool": "true", "char": "'k'"}
+            special = {"u8": "11", "i64": "-11", "String": '"container".to_string()', "bool": "true", "char": "'k'",
+                       "Vec<u8>": "vec![7, 8]", "Vec<String>": 'vec!["src".to_string(), "tests".to_string()]', "Vec<i64>": "vec![-1]",
+                       "Vec<bool>": "vec![true, false]", "Vec<char>": "vec!['z']", "Option<u8>": "Some(3)"}
             out.append("            %s: %s," % (f["ident"], special.get(f["ty"].rust, "Default::default()")))
         out.append("        }")
         out.append("    }")
@@ -404,7 +406,11 @@ def gen_enum(idx):
         if kind == "unit" and not word_used and not v["skip"] and rng.random() < 0.25:
             v["word"] = True
             word_used = True
-            v["opts"].append("word")
+            v["opts"].append(rng.choice(["word", "word", "word = true"]))
+        elif kind == "unit" and not word_used and rng.random() < 0.1:
+            # declared, but not a word variant (darling allows `word` on at most one variant, whatever its value)
+            word_used = True
+            v["opts"].append("word = false")
         v["name"] = v.get("rename") or to_variant(eff_rule, ident)
         variants.append(v)
     names = [v["name"] for v in variants if not v["skip"]]
